@@ -6,6 +6,8 @@ sys.path.insert(0, os.path.join(V, "sa")); sys.path.insert(0, os.path.join(V, "s
 import extract, runner, selftest
 diffs = sys.argv[1:] or sorted(glob.glob(os.path.join(V, "selftest", "*", "benign*.diff")))
 props = [f"C{i:02d}" for i in range(1, 20)]
+if os.environ.get("SKIP_C19"):
+    props.remove("C19")      # C19 drives cargo in shared target dirs: skip when another scratch run is active
 repo = os.path.join(selftest.SCRATCH + "-benign", "repo")
 os.makedirs(repo, exist_ok=True)
 for d in diffs:
@@ -14,7 +16,7 @@ for d in diffs:
     if r.returncode:
         print(os.path.basename(d), "PATCH FAILED", r.stdout[-200:]); continue
     try:
-        facts = extract.extract("selftest", repo=repo, target=os.path.join(extract.CACHE, "target-selftest"))
+        facts = extract.extract("benign", repo=repo, target=os.path.join(extract.CACHE, "target-benign"))
     except RuntimeError as e:
         print(os.path.basename(d), "BUILD FAILED", str(e)[:200]); continue
     fired = []
